@@ -24,6 +24,21 @@ from EasyFEA.Models.HyperElastic._state import HyperElasticState
 NL = Operators.NonLinear
 
 
+MODULI = {"NeoHookean": ["K"], "MooneyRivlin": ["K", "K1", "K2"], "CiarletGeymonat": ["K", "K1", "K2"], "AutoDiff": ["K", "K1", "K2"],
+          "SaintVenantKirchhoff": ["lmbda", "mu", "K"], "HolzapfelOgden": ["C0", "C2", "C4", "C6", "K", "Mu1", "Mu2"]}
+
+
+def scales(c):
+    """change of units of a case: lengths x sL, moduli (stresses) x sE, time x sT.  Everything the property talks about
+    is homogeneous, so the same relative criteria must hold for the scaled twin."""
+    sc = c.get("scale") or {}
+    return float(sc.get("sL", 1.0)), float(sc.get("sE", 1.0)), float(sc.get("sT", 1.0))
+
+
+def scaled_params(law, params, sE):
+    return {k: (v * sE if k in MODULI.get(law, []) else v) for k, v in params.items()}
+
+
 def make_group(elemType, A):
     et = getattr(ElemType, elemType)
     gid, nPe, dim = GroupElemFactory.DICT_ELEMTYPE[et][:3]
@@ -66,10 +81,11 @@ def make_law(name, dim, params, T1=None, T2=None):
 
 
 def run_state(c):
-    g, X, dim, nPe = make_group(c["elemType"], c["A"])
-    u = displacement(X, dim, c["G"], c["pert"], c["amp"])
+    sL, sE, sT = scales(c)
+    g, X, dim, nPe = make_group(c["elemType"], (np.asarray(c["A"], dtype=float) * sL).tolist())
+    u = displacement(X, dim, c["G"], c["pert"], c["amp"] * sL)
     st = HyperElasticState(g, u, MatrixType.rigi)
-    mat = make_law(c["law"], dim, c["params"], c.get("T1"), c.get("T2"))
+    mat = make_law(c["law"], dim, scaled_params(c["law"], c["params"], sE), c.get("T1"), c.get("T2"))
     res = {"id": c["id"], "dim": dim,
            "J": np.asarray(st.Compute_J())[0].tolist(),
            "C": np.asarray(st.Compute_C())[0].tolist(),
@@ -93,16 +109,18 @@ def central(f, u, idx, h):
 
 
 def rel(a, b):
-    s = max(np.abs(b).max(), np.abs(a).max(), 1e-30)
+    s = max(np.abs(b).max(), np.abs(a).max(), 1e-300)
     return float(np.abs(a - b).max() / s)
 
 
 def run_fd(c):
-    g, X, dim, nPe = make_group(c["elemType"], c["A"])
-    u1 = displacement(X, dim, c["G"], c["pert"], c["amp"])
-    u0 = displacement(X, dim, c["G0"], c["pert"][::-1], c["amp"])
-    v = np.asarray(c["vel"][: nPe * dim], dtype=float)
-    mat = make_law(c["law"], dim, c["params"], c.get("T1"), c.get("T2"))
+    sL, sE, sT = scales(c)
+    c = dict(c, h=c["h"] * sL, tau=c["tau"] * sE, eta=c["eta"] * sE * sT, thickness=c.get("thickness", 1.0) * (sL if False else 1.0))
+    g, X, dim, nPe = make_group(c["elemType"], (np.asarray(c["A"], dtype=float) * sL).tolist())
+    u1 = displacement(X, dim, c["G"], c["pert"], c["amp"] * sL)
+    u0 = displacement(X, dim, c["G0"], c["pert"][::-1], c["amp"] * sL)
+    v = np.asarray(c["vel"][: nPe * dim], dtype=float) * sL / sT
+    mat = make_law(c["law"], dim, scaled_params(c["law"], c["params"], sE), c.get("T1"), c.get("T2"))
     mat.thickness = c.get("thickness", 1.0)
     th = mat.thickness if dim == 2 else 1.0
     mt = MatrixType.rigi
@@ -128,7 +146,7 @@ def run_fd(c):
         return NL.GonzalezStressTensor(mat, S(u0), S((u0 + u)/2), S(u), True)
     K, R = gz(u1)
     out["gonzalez:coefK*K=dR/du_np1"] = rel(0.5 * K[0][:, idx], central(lambda u: gz(u)[1][0], u1, idx, h))
-    out["gonzalez:R.du=dPi"] = float(abs(R[0] @ (u1 - u0) - (energy(u1)[0] - energy(u0)[0])) / max(abs(energy(u1)[0] - energy(u0)[0]), 1e-30))
+    out["gonzalez:R.du=dPi"] = float(abs(R[0] @ (u1 - u0) - (energy(u1)[0] - energy(u0)[0])) / max(abs(energy(u1)[0] - energy(u0)[0]), 1e-300))
 
     # strain-path quadrature, fixed rule
     for coefK, npts in ((0.5, 3), (1.0, 2), (0.7, 5)):
@@ -153,7 +171,7 @@ def run_fd(c):
     mat.eta = c["eta"]
     Kg, Rv, Cv = NL.KelvinVoigtDamping(mat, S(u1), v)
     out["kelvinvoigt:Kgeo=dR/du"] = rel(Kg[0][:, idx], central(lambda u: NL.KelvinVoigtDamping(mat, S(u), v)[1][0], u1, idx, h))
-    out["kelvinvoigt:C=dR/dv"] = rel(Cv[0][:, idx], central(lambda w: NL.KelvinVoigtDamping(mat, S(u1), w)[1][0], v, idx, h))
+    out["kelvinvoigt:C=dR/dv"] = rel(Cv[0][:, idx], central(lambda w: NL.KelvinVoigtDamping(mat, S(u1), w)[1][0], v, idx, h / sT))
     out["kelvinvoigt:R=C v"] = rel(Rv[0], Cv[0] @ v)
     mat.eta = 0.0
     return out
@@ -240,10 +258,31 @@ def apply_ops(simu, ops):
             raise ValueError(op)
 
 
+def scale_dyn_case(c):
+    """apply the change of units (lengths sL, moduli sE, time sT) to a simulation-level case."""
+    sL, sE, sT = scales(c)
+    if (sL, sE, sT) == (1.0, 1.0, 1.0):
+        return c, (sL, sE, sT)
+    c = dict(c)
+    dim = c["dim"]
+    c["L"] = [x * sL for x in c["L"]]
+    c["params"] = scaled_params(c["law"], c["params"], sE)
+    c["rho"] = c["rho"] * sE * sT ** 2 / sL ** 2
+    for k, f in (("eta", sE * sT), ("tau", sE), ("amp", sL), ("h", sL), ("dt", sT), ("v0", sL / sT), ("absTol", sE * sL ** (dim - 1))):
+        if k in c and c[k] is not None:
+            c[k] = c[k] * f
+    if "ops" in c:
+        c["ops"] = [[op[0], op[1], op[2] * sT, op[3]] if op[0] == "algo" else op for op in c["ops"]]
+    if c.get("program"):
+        c["program"] = [["dt", op[1] * sT] if isinstance(op, list) and op[0] == "dt" else op for op in c["program"]]
+    return c, (sL, sE, sT)
+
+
 def run_simfd(c):
     """assembled Newton matrix of Simulations.HyperElastic vs central differences of the assembled
     residual F_e with respect to the step unknown u_{n+1}, after a sequence of public setters."""
     from EasyFEA import Simulations
+    c, (sL, sE, sT) = scale_dyn_case(c)
     mesh, dim, L = build_mesh(c)
     mat = make_law(c["law"], dim, c["params"], c.get("T1"), c.get("T2"))
     mat.eta = c.get("eta", 0.0)
@@ -253,7 +292,7 @@ def run_simfd(c):
         Tdir = np.tile(np.asarray((c["T1"][:dim] + [0.0, 0.0, 0.0])[:3], dtype=float), (g0.Ne, nPg, 1))
         mat.Set_active_stress_vec(FeArray.asfearray(Tdir))
         mat.active_stress = c["tau"]
-    simu = Simulations.HyperElastic(mesh, mat, absTol=1e-9, maxIter=40, verbosity=False)
+    simu = Simulations.HyperElastic(mesh, mat, absTol=1e-9 * sE * sL ** (dim - 1), incTol=1e-13 * sL, maxIter=40, verbosity=False)
     simu.rho = c["rho"]
     try:
         apply_ops(simu, c["ops"])
@@ -263,7 +302,7 @@ def run_simfd(c):
     n = mesh.Nn * dim
     r = np.asarray(c["rand"], dtype=float)
     take = lambda k: np.resize(r[k::4], n)
-    simu._Set_solutions(pt, take(0) * c["amp"], take(1) * 10 * c["amp"], take(2) * 10 * c["amp"])
+    simu._Set_solutions(pt, take(0) * c["amp"], take(1) * 10 * c["amp"] / sT, take(2) * 10 * c["amp"] / sT ** 2)
     # history before the check: solves with or without Save_Iter, rewinds (free body: the mass term keeps A regular)
     for op in c.get("presteps", []):
         if op == "solve":
@@ -276,7 +315,7 @@ def run_simfd(c):
     out = {"id": c["id"], "algo": str(simu.algo), "stress": str(simu.stressType)}
     if c.get("presteps"):
         # a simulation with this history must assemble what a fresh one in the same state assembles
-        fresh = Simulations.HyperElastic(mesh, mat, verbosity=False)
+        fresh = Simulations.HyperElastic(mesh, mat, absTol=1e-9 * sE * sL ** (dim - 1), incTol=1e-13 * sL, verbosity=False)
         fresh.rho = c["rho"]
         apply_ops(fresh, c["ops"])
         fresh._Set_solutions(pt, simu._Get_u_n(pt).copy(), simu._Get_v_n(pt).copy(), simu._Get_a_n(pt).copy())
@@ -326,6 +365,36 @@ def run_simfd(c):
             ncols += len(cols)
     out["sim:A=-dF/du_np1"] = worst
     out["columns"] = ncols
+    # ---- the ASSEMBLED system: (i) global K, C, M equal the explicit scatter-add of the element matrices,
+    #      (ii) A d = -dF/du_{n+1} . d by central differences of the assembled residual, for a random direction d
+    def assembled(u):
+        simu._Simu__Solver_Set_Newton_Raphson_current_solution(u.copy())
+        simu.Need_Update()
+        return simu.Get_K_C_M_F(pt)
+    Kg, Cg, Mg, Fg = assembled(u_np1)
+    res0, _ = local(u_np1)
+    ndof = mesh.Nn * dim
+    dsc = 0.0
+    for which, G in ((0, Kg), (1, Cg), (2, Mg)):
+        ref = np.zeros((ndof, ndof))
+        have = False
+        for g, mats in res0.items():
+            if mats[which] is None:
+                continue
+            have = True
+            asse = g.Get_assembly_e(dim)
+            for e in range(g.Ne):
+                ref[np.ix_(asse[e], asse[e])] += np.asarray(mats[which])[e]
+        if have:
+            dsc = max(dsc, rel(np.asarray(G.todense()), ref))
+    out["sim:assembled K,C,M = scatter-add of element matrices"] = dsc
+    d = np.resize(r[1::3], ndof)
+    d = d / np.abs(d).max()
+    A = coefK * Kg + coefC * Cg + coefM * Mg
+    hh = c["h"]
+    Fp = np.asarray(assembled(u_np1 + hh * d)[3].todense()).ravel()
+    Fm = np.asarray(assembled(u_np1 - hh * d)[3].todense()).ravel()
+    out["sim:assembled A.d=-dF/du_np1.d"] = rel(np.asarray(A @ d).ravel(), -(Fp - Fm) / (2 * hh))
     out["skipped_elements"] = skipped
     out["nPts"] = None if npts0 is None else sorted(set(int(x) for x in npts0))
     return out
@@ -344,7 +413,7 @@ def run_quad(c):
     dW = float((wJ * (np.asarray(mat.Compute_W(S(u1))) - np.asarray(mat.Compute_W(S(u0))))).sum())
     W1, W0 = np.asarray(mat.Compute_W(S(u1))), np.asarray(mat.Compute_W(S(u0)))
     # robust scale: the energy increment can be close to zero between two states of similar energy
-    scale = max(abs(dW), 0.1 * float((wJ * (np.abs(W1) + np.abs(W0))).sum()), 1e-30)
+    scale = max(abs(dW), 0.1 * float((wJ * (np.abs(W1) + np.abs(W0))).sum()), 1e-300)
     out = {"id": c["id"], "dW": dW, "scale": scale, "defect": {}, "wsum": {}}
     for npts in c["nPoints"]:
         _, R, _ = NL.TimeQuadratureStressTensor(mat, S(u0), S((u0 + u1) / 2), S(u1), 0.5, npts)
@@ -363,11 +432,13 @@ def run_quad(c):
 
 def run_drift(c):
     from EasyFEA import Simulations, AlgoType
+    c, (sL, sE, sT) = scale_dyn_case(c)
     mesh, dim, L = build_mesh(c)
     mat = make_law(c["law"], dim, c["params"], c.get("T1"), c.get("T2"))
-    simu = Simulations.HyperElastic(mesh, mat, absTol=c["absTol"], relTol=1e-14, incTol=1e-14, maxIter=40, verbosity=False)
+    simu = Simulations.HyperElastic(mesh, mat, absTol=c["absTol"], relTol=1e-14, incTol=1e-14 * sL, maxIter=40, verbosity=False)
     simu.rho = c["rho"]
     n0 = mesh.Nodes_Conditions(lambda x, y, z: x == 0)
+    newton_iters = []
     unk = simu.Get_unknowns()
     simu.add_dirichlet(n0, [0] * dim, unk)
     simu.Solver_Set_Hyperbolic_Algorithm(c["dt"], algo=getattr(AlgoType, c["algo"]))
@@ -396,6 +467,7 @@ def run_drift(c):
             if M is None:
                 _, _, M, _ = simu.Get_K_C_M_F(pt)
             snaps.append((vb, Wb, simu._Get_v_n(pt).copy(), float(simu._Calc_W())))
+            newton_iters.append(int(simu._Simu__newtonIter))
             if simu._HyperElastic__nPts_e is not None:
                 npts_max = max(npts_max, int(np.max(simu._HyperElastic__nPts_e)))
         elif op == "save":
@@ -412,7 +484,7 @@ def run_drift(c):
     energies = [E0] + [a for _, a in steps]
     step_defect = max(abs(a - b) for b, a in steps) / abs(E0)
     umax = float(np.abs(simu.displacement).max())
-    return {"id": c["id"], "energies": energies, "step_defect": step_defect, "nsolves": len(steps), "npts_max": npts_max, "umax": umax, "W_end": float(simu._Calc_W())}
+    return {"id": c["id"], "energies": energies, "step_defect": step_defect, "nsolves": len(steps), "newton_iters": newton_iters, "npts_max": npts_max, "umax": umax, "W_end": float(simu._Calc_W())}
 
 
 def main():
